@@ -105,7 +105,13 @@ func main() {
 		}
 	case "exec":
 		in := bufio.NewReaderSize(os.Stdin, 1<<20)
-		w := bufio.NewWriterSize(os.Stdout, 1<<20)
+		// answers go to the real stdout; anything the interpreter itself prints there (debug
+		// prints such as LenFunction's) must not shift the answer lines
+		answers := os.Stdout
+		if devnull, err := os.OpenFile(os.DevNull, os.O_WRONLY, 0); err == nil {
+			os.Stdout = devnull
+		}
+		w := bufio.NewWriterSize(answers, 1<<20)
 		defer w.Flush()
 		for {
 			line, err := in.ReadString('\n')
